@@ -54,17 +54,18 @@ func init() {
 	})
 }
 
-// judgeStaleKeySnapshotAfterFailedRotation gates one constellation of the generated histories that fires on the
-// unchanged tree since /repo 8c4b289 (F32) turned "rotate onto the current certificate's object name with overwrite"
-// into a refusal: (1) a rotation is refused AFTER the key manager created the new key, which localkm leaves on disk as
-// an unrecorded key named BumpName(primary); (2) an endorse command loads its key snapshot (localkm loads every key
-// file at start), then a whole rotation of another process lands before the endorse run's first call; that rotation
-// generates ANOTHER key under the same name BumpName(primary) and records it; (3) the endorse run reads the new
-// primary's name and certificate from the authority, finds a key of that name in its OLD snapshot (the orphan of the
-// refused rotation) and signs with it: the file is written and its signature does not verify under the embedded
-// certificate. Without the orphan the run fails cleanly ("key not found"), which is allowed. Reported to the
-// coordinator; not judged until decided (seed 2, quick, history#20 reproduces it with the const set to true).
-const judgeStaleKeySnapshotAfterFailedRotation = false
+// staleKeyTag marks the violations of ONE constellation of the generated histories, which is a genuine, recorded and
+// unrepaired defect of the unchanged tree (known_findings.json F38): (1) a rotation fails AFTER the key manager created
+// the new key (for example the refusal that fix F32 introduced for "rotate onto the current certificate's object name
+// with overwrite"), which localkm leaves on disk as an unrecorded key named BumpName(primary); (2) an endorse command
+// loads its key snapshot (localkm loads every key file at start), then a whole rotation of another process lands before
+// the endorse run's first call; that rotation generates ANOTHER key under the same name and records it; (3) the endorse
+// run reads the new primary's name and certificate from the authority, finds a key of that name in its OLD snapshot (the
+// orphan) and signs with it: the file is written and its signature does not verify under the embedded certificate.
+// Without the orphan the run fails cleanly ("key not found"), which is allowed. The violations of exactly these steps
+// carry this tag in their rule name, so that the known-findings entry matches them and nothing else; an endorsement
+// issued in such a step is not carried into later re-checks.
+const staleKeyTag = "(stale-key-snapshot-after-failed-rotation)"
 
 type issued struct {
 	raw    []byte
@@ -82,6 +83,8 @@ type hist struct {
 	vcek  map[int64][]byte
 	cmds  *[]string
 	kv    *kept // verifier-side values kept for the whole history (see kept.go)
+	tag   string // appended to the rule name of every violation reported while it is set (see staleKeyTag)
+	nviol int
 }
 
 func (h *hist) root() (*x509.Certificate, string) {
@@ -107,7 +110,8 @@ func window(root, leaf *x509.Certificate) (time.Time, time.Time) {
 }
 
 func (h *hist) viol(rule, format string, a ...any) {
-	h.c.Violate(core.Violation{Kind: "oracle", Entry: "endorse pipeline", Site: rule, Gen: h.gname, Case: h.idx, Detail: fmt.Sprintf(format, a...),
+	h.nviol++
+	h.c.Violate(core.Violation{Kind: "oracle", Entry: "endorse pipeline", Site: rule + h.tag, Gen: h.gname, Case: h.idx, Detail: fmt.Sprintf(format, a...),
 		Witness: map[string]any{"commands_so_far": append([]string(nil), *h.cmds...)}})
 }
 
@@ -476,10 +480,10 @@ func run(c *core.Ctx) {
 				h.viol("fault-free-endorse-failed", "step %d (%s): %v", step, shape, err)
 				continue
 			}
-			if interleave != 0 && orphanKey && a.KM == authority.LocalKM && !judgeStaleKeySnapshotAfterFailedRotation {
-				c.Count("endorse-runs-with-a-key-snapshot-older-than-the-interleaved-rotation-after-a-failed-rotation(not judged)", 1)
-				h.recheck(all, step, "endorse+interleaved-rotate")
-				continue
+			stale := interleave != 0 && orphanKey && a.KM == authority.LocalKM
+			if stale {
+				c.Count("endorse-runs-with-a-key-snapshot-older-than-the-interleaved-rotation-after-a-failed-rotation", 1)
+				h.tag = staleKeyTag
 			}
 			if interleave != 0 {
 				c.Cell("%s|endorse-with-interleaved-rotation|at-call-%d", a.Name(), interleave)
@@ -497,7 +501,10 @@ func run(c *core.Ctx) {
 				h.viol("endorsement-file-missing", "step %d: %s not in the committed head (have %d files)", step, path, len(h.vcs.Head))
 				continue
 			}
-			if is := h.checkFresh(raw, step, shape, c.Thorough()); is != nil {
+			before := h.nviol
+			is := h.checkFresh(raw, step, shape, c.Thorough())
+			h.tag = ""
+			if is != nil && !(stale && h.nviol != before) {
 				all = append(all, is)
 				issuedTotal++
 			}
